@@ -49,9 +49,16 @@ Print Assumptions C15_acquire_partial.
     share the peer). *)
 Theorem C15_acquire_ike_sa : forall table my peer,
   match pick_ike_sa table my peer with
-  | PickExisting n => exists m p, nth_error table n = Some (m, p) /\ ip_eqb m my = true /\ ip_eqb p peer = true
-  | PickNewInitiator m p => m = my /\ p = peer /\
-                            forall m' p', In (m', p') table -> (ip_eqb m' my && ip_eqb p' peer)%bool = false
+  | PickExisting n => exists m p st, nth_error table n = Some (m, p, st) /\ ip_eqb m my = true /\ ip_eqb p peer = true /\
+                                     ike_sa_usable st = true /\
+                                     forall j y, j < n -> nth_error table j = Some y -> sa_fits my peer y = false
+  | PickNewInitiator m p => m = my /\ p = peer /\ forall x, In x table -> sa_fits my peer x = false
   end.
 Proof. exact acquire_ike_sa. Qed.
 Print Assumptions C15_acquire_ike_sa.
+
+(** the IKE_SAs that are passed over are exactly the ones being replaced or closed (F22) *)
+Theorem C15_acquire_passes_over_closing_ike_sas : forall st,
+  ike_sa_usable st = false <-> (st = 20 \/ st = 16 \/ st = 15 \/ st = 21)%Z.
+Proof. exact usable_states. Qed.
+Print Assumptions C15_acquire_passes_over_closing_ike_sas.
